@@ -295,3 +295,16 @@ WITNESSES += [
     dict(id="c18-importer-creates-index", prop="C18", file=F, expect="R18f",
          old="                idx.extend(get_symbols(sub_part))", new="                idx.extend(Index(n) for n in split_idx_string(sub_part))"),
 ]
+
+WITNESSES += [
+    # the differentiation variable handed to an extracted helper (still only a scalar there)
+    dict(id="c18-ok-dummy-through-helper", prop="C18", file="derivative.py", expect=None, edits=[
+        ("def _lift_target_and_repeated_idx(", "def _placeholder_power(symbol, exponent):\n    return symbol**exponent\n\n\ndef _lift_target_and_repeated_idx("),
+        ("            symmetrized_deriv_contrib = deriv_contrib.sympy * x**exponent\n", "            symmetrized_deriv_contrib = deriv_contrib.sympy * _placeholder_power(exponent=exponent, symbol=x)\n"),
+    ]),
+    # ... and a helper that turns it into an index
+    dict(id="c18-dummy-through-helper-as-index", prop="C18", file="derivative.py", expect="R18f", edits=[
+        ("def _lift_target_and_repeated_idx(", "def _placeholder_power(symbol, exponent):\n    return NonSymmetricTensor('x', (symbol,))**exponent\n\n\ndef _lift_target_and_repeated_idx("),
+        ("            symmetrized_deriv_contrib = deriv_contrib.sympy * x**exponent\n", "            symmetrized_deriv_contrib = deriv_contrib.sympy * _placeholder_power(x, exponent)\n"),
+    ]),
+]
